@@ -674,14 +674,9 @@ def rerun_oracles(ctx, world, before, after, rerun, epoch, tag):
         was = {n: (st, set(bl)) for n, st, bl in before["jobs"]}
         cls = set()
         if before.get("is_canceled"):
-            grew = True
-            while grew:
-                grew = False
-                for n in extra - cls:
-                    st, bl = was[n]
-                    if st == "not_submitted" and bl <= cls:
-                        cls.add(n)
-                        grew = True
+            # never-submitted unselected jobs become launchable as soon as their blockers have outcomes - whether those
+            # blockers are rerun, were done before, or are themselves jobs of this class that ran or were canceled
+            cls = {n for n in extra if was[n][0] == "not_submitted"}
         if cls:
             chk.violation("unselected-never-submitted-jobs-launched-after-cancel",
                           "resubmit-jobs on a user-canceled submission also launched never-submitted jobs that the flags did not select: %s" % sorted(cls),
@@ -716,6 +711,10 @@ def rerun_oracles(ctx, world, before, after, rerun, epoch, tag):
         probs.append("submission not complete after the rerun")
     if after["submitter"] is not None:
         probs.append("submitter role still taken after completion")
+    if probs and os.environ.get("VERIF_KEEP_FAIL"):
+        import shutil as _sh
+        _sh.copytree(world.out, os.path.join(os.environ["VERIF_KEEP_FAIL"], tag.replace("#", "_").replace(":", "_")), dirs_exist_ok=True)
+        json.dump({"order": world.order_log(epoch), "launches": world.launches, "epoch": epoch}, open(os.path.join(os.environ["VERIF_KEEP_FAIL"], "world.json"), "w"), default=str)
     if probs:
         chk.violation("rerun-wrong: " + probs[0].split(" ")[0], "the resubmission did not rerun exactly the rerun set once, in dependency order, preserving other results: " + "; ".join(probs[:4]), rep)
 
@@ -732,6 +731,40 @@ def _upstream(depmap, n, rerun):
 
 
 # ------------------------------------------------------------------------------------------------
+def _one_scenario_checked(ctx, sc, tmp, idx, rng, deep):
+    """The world of this driver is synchronous and every random choice comes from `rng`: a violation of the
+    property on it reproduces when the scenario is run again from the same rng state in a fresh directory.
+    An alarm that does not reproduce came from the environment (e.g. a lock or a time budget under heavy
+    machine load), not from the code under check, and is dropped (counted in the notes)."""
+    import copy
+    import random as _random
+    chk = ctx.chk
+    state = rng.getstate()
+    sc0 = copy.deepcopy(sc)
+    n0 = len(chk.violations)
+    one_scenario(ctx, sc, tmp, idx, rng, deep)
+    new = chk.violations[n0:]
+    if not new:
+        return
+    saved = chk.violations
+    chk.violations = []
+    try:
+        r2 = _random.Random()
+        r2.setstate(state)
+        one_scenario(ctx, sc0, tmp, idx + 1000000, r2, deep)
+        again = {v["signature"] for v in chk.violations}
+    except Exception:   # noqa: the second run must never hide the first
+        again = {v["signature"] for v in new}
+    finally:
+        chk.violations = saved
+        shutil.rmtree(os.path.join(tmp, f"s{idx + 1000000}"), ignore_errors=True)
+    dropped = [v for v in new if v["signature"] not in again]
+    if dropped:
+        chk.violations = [v for v in chk.violations if v not in dropped]
+        chk.notes["unreproducible_alarms_dropped"] = chk.notes.get("unreproducible_alarms_dropped", []) + \
+            [{"scenario": f"{sc0.get('shape')}#{idx}", "signature": v["signature"]} for v in dropped]
+
+
 def one_scenario(ctx, sc, tmp, idx, rng, deep):
     chk = ctx.chk
     out = os.path.join(tmp, f"s{idx}", "out")
@@ -860,7 +893,7 @@ def run(chk):
                 scs = directed_scenarios()
                 idx = 0
                 for sc in scs:
-                    one_scenario(ctx, sc, tmp, idx, rng, deep=True)
+                    _one_scenario_checked(ctx, sc, tmp, idx, rng, True)
                     idx += 1
                 for k in range(n_deep + n_light):
                     if time.time() - t0 > budget:
@@ -868,7 +901,7 @@ def run(chk):
                         break
                     deep = k < n_deep
                     sc = gen_scenario(rng, 6 if deep else 9)
-                    one_scenario(ctx, sc, tmp, idx, rng, deep=deep)
+                    _one_scenario_checked(ctx, sc, tmp, idx, rng, deep)
                     shutil.rmtree(os.path.join(tmp, f"s{idx}"), ignore_errors=True)
                     idx += 1
     finally:
